@@ -3,6 +3,7 @@ import Driver.Layers
 import MlaModel.Archive
 import MlaModel.Native
 import MlaModel.CodecStored
+import MlaModel.CodecBrotli
 open Lean
 namespace Driver
 open MlaModel
@@ -90,12 +91,6 @@ def filesOut (j : Json) (P : Params) (s : Bytes) (ix : Index) (n : Nat) : Json :
     Json.mkObj [("linear", lin), ("only", fmtFilesJson P s (ix.filter fun e => only.contains e.1) n)]
   else fmtFilesJson P s ix n
 
-/-- a codec whose decoder is a table computed by the harness with the `brotli` crate directly:
-    compressed block ↦ plaintext -/
-def Codec.table (pairs : List (Bytes × Bytes)) : Codec :=
-  { Codec.stored with
-    dec := fun c => (pairs.find? fun p => p.1 == c).map (·.2) }
-
 /-- `archive.decode`: raw archive bytes + recipient secret → header fields, derived and unwrapped
     keys, the bytes delivered by the encryption layer; then
       * no compression: the index and every file;
@@ -150,12 +145,17 @@ def cmdArchiveFinish (j : Json) : Json :=
     -- cut the compressed blocks as the table says, pair them with the plaintexts supplied
     let (cblocks, _) := z.csizes.foldl (init := (([] : List Bytes), d)) fun (acc, rest) c =>
       (acc ++ [rest.take c], rest.drop c)
-    match decompressAll P (Codec.table (cblocks.zip plains)) comp with
-    | .error e => errAt [] "decompress" e
+    -- every block is decoded by the model's own RFC 7932 decoder (strict mode: an archive conforms to
+    -- the documented format only if its blocks are valid brotli streams to the letter); the
+    -- plaintexts supplied by the harness are a cross-check of that decoder against the crate
+    let mism := ((cblocks.zip plains).filter fun (c, p) => brotliDec true c != some p).length
+    match decompressAll P (Codec.brotli true) comp with
+    | .error e => errAt [("table_mismatch", jnat mism)] "decompress" e
     | .ok inner =>
       match parseFooter utf8 inner with
-      | .error e => errAt [("inner_len", jnat inner.length)] "footer" e
+      | .error e => errAt [("inner_len", jnat inner.length), ("table_mismatch", jnat mism)] "footer" e
       | .ok ix => Json.mkObj [("inner_len", jnat inner.length), ("inner_head", jhex (inner.take 64)),
+                              ("table_mismatch", jnat mism),
                               ("index", indexJson ix), ("files", filesOut j P inner ix n)]
 
 /-- `format.consts`: the constants of format v1 as the model has them -/
